@@ -215,8 +215,16 @@ def run(ctx):
         it = Interp(repo, ti, body=lp.body, rename=False)
         leaves = it.leaves()
         p1, p2 = ti.params[1], ti.params[2]
+        sets = {}
+        for n in ast.walk(ti.node):
+            if isinstance(n, ast.Dict):
+                for k, v in zip(n.keys, n.values):
+                    if isinstance(k, ast.Constant) and k.value in ('passed', 'failed') and isinstance(v, ast.Name):
+                        sets[k.value] = v.id
         res_atom = ('T', '%s.test(%s, %s)' % (fv, p1, p2))
         bad = []
+        if set(sets) != {'passed', 'failed'} or sets['passed'] == sets['failed']:
+            bad.append("the result dict does not expose distinct 'passed' and 'failed' collections")
         for o in leaves:
             r = o.val.get(res_atom)
             eff = list(o.effects)
@@ -224,7 +232,7 @@ def run(ctx):
                 bad.append('result of %s.test(%s, %s) is not the only thing tested: %s' % (fv, p1, p2, fmt_val(o.val)))
                 continue
             adds = [e for e in eff if e.endswith('.add(%s)' % fv)]
-            want = ('passed' if r else 'failed') + '.add(%s)' % fv
+            want = sets.get('passed' if r else 'failed', '?') + '.add(%s)' % fv
             if adds != [want]:
                 bad.append('%s -> %s, reference %s' % (fmt_val(o.val), adds, want))
         ck.expect(not bad and len(leaves) == 2, 'C02-D1', ti.qual, 'falsy result -> failed, truthy -> passed (2 rows)',
@@ -247,9 +255,16 @@ def run(ctx):
         mutated = {c.func.value.id for c in U.calls(ti.node) if isinstance(c.func, ast.Attribute) and isinstance(c.func.value, ast.Name)}
         e = U.expand_locals(ti.node, verdict_e, skip=tuple(mutated))
         outs = []
+        fname = None
+        for n in ast.walk(ti.node):
+            if isinstance(n, ast.Dict):
+                for k, v in zip(n.keys, n.values):
+                    if isinstance(k, ast.Constant) and k.value == 'failed' and isinstance(v, ast.Name):
+                        fname = v.id
+        fname = fname or 'failed'
         for empty in (True, False):
-            val = {('ord', '0', 'len(failed)'): 'eq' if empty else 'lt', ('T', 'failed'): not empty,
-                   ('T', 'len(failed)'): not empty, ('ord', '1', 'len(failed)'): 'gt' if empty else 'lt'}
+            val = {('ord', '0', 'len(%s)' % fname): 'eq' if empty else 'lt', ('T', fname): not empty,
+                   ('T', 'len(%s)' % fname): not empty, ('ord', '1', 'len(%s)' % fname): 'gt' if empty else 'lt'}
             try:
                 outs.append(it.truth(e, val))
             except _Need as need:
